@@ -44,7 +44,7 @@ func ipHalves(ip string) [2]int {
 }
 
 type cScenario struct {
-	kind          string // static | dup | banned | banq | reload
+	kind          string // static | dup | banned | banq | reload | yourip
 	out, inc, trk bool
 	variant       int
 	settle        time.Duration
@@ -423,6 +423,15 @@ func runContact(sc cScenario, dir string, seed int64) {
 		ctl("control-dialled", dialled(cCtl))
 		ctl("incoming-ok-accepted", func() bool { return r.count(r.accepts, "127.0.0.23") > 0 })
 		ctl("hanging-listener-dialled", dialled(hang))
+	case "yourip":
+		// a peer tells the client its external address (yourip); the tracker then returns that address with the
+		// client's own port.  The address is not local: a dial shows up in the client's own state only.
+		manOk = r.listen("127.0.0.21", "hs", true, func(c *vh.Conn) {
+			c.Send(vh.Msg{ID: vh.MsgExtended, ExtID: 0, Data: vh.Enc(vh.Dict{"m": vh.Dict{}, "v": "vh-c18", "yourip": []byte{10, 9, 8, byte(7 + sc.variant)}})})
+		})
+		cCtl = r.listen("127.0.0.27", "hs", false, nil)
+		ctl("peer-dialled", dialled(manOk))
+		ctl("control-dialled", dialled(cCtl))
 	case "reload":
 		hang = r.listen("127.0.0.30", "hang", false, nil)
 		later = r.listen("127.0.0.60", "hsclose", false, nil)
@@ -576,6 +585,22 @@ func runContact(sc cScenario, dir string, seed int64) {
 		offer(hang2)
 		offer(cCtl)
 		setMainPeers(func(int) []*net.TCPAddr { return compactPeers(a2, inL, hang2) })
+		tr.Announce()
+	case "yourip":
+		offer(manOk)
+		if !r.waitFor(4*time.Second, connected("127.0.0.21")) {
+			finish(false, []string{"peer-not-connected"})
+			return
+		}
+		time.Sleep(250 * time.Millisecond) // the extension handshake has been handled by then
+		ext := fmt.Sprintf("10.9.8.%d", 7+sc.variant)
+		r.mu.Lock()
+		r.watch[ext] = port
+		r.mu.Unlock()
+		r.emit(ev{"op": "CSelf", "self": ipHalves(ext), "sport": port})
+		own := &net.TCPAddr{IP: net.ParseIP(ext), Port: port}
+		r.emit(ev{"op": "CNote", "what": "tracker-offer", "a": own.String() + "," + cCtl.String()})
+		setMainPeers(func(int) []*net.TCPAddr { return compactPeers(own, cCtl) })
 		tr.Announce()
 	case "reload":
 		offer(hang)
